@@ -380,7 +380,8 @@ def catalog():
                              P('Assets:Bank', '-10.70', 'USD')]),
         4: data.Price(m(4), datetime.date(2020, 1, 5), 'HOO', A(D('3.25'), 'USD')),
         5: data.Balance(m(5), datetime.date(2020, 2, 1), 'Assets:Bank', A(D('-15.70'), 'USD'), None, None),
-        6: data.Note(m(6), datetime.date(2020, 2, 1), 'Assets:Bank', 'called the bank', frozenset(), frozenset()),
+        # notes and documents carry tags and links of their own (the columns tags / links are the transaction's)
+        6: data.Note(m(6), datetime.date(2020, 2, 1), 'Assets:Bank', 'called the bank', frozenset({'trip'}), frozenset({'inv-1'})),
         7: data.Pad(m(7), datetime.date(2020, 3, 1), 'Assets:Bank', 'Equity:Open'),
         8: data.Transaction(m(8), datetime.date(2021, 2, 10), '*', 'Job', 'Pay', frozenset(), frozenset({'pay-2021'}),
                             [P('Assets:Bank', '7', 'USD'), P('Income:Job', '-7', 'USD')]),
@@ -388,7 +389,7 @@ def catalog():
         10: data.Commodity(m(10, name='Hooli'), datetime.date(2020, 1, 1), 'HOO'),
         11: data.Event(m(11), datetime.date(2020, 3, 1), 'location', 'Paris, France'),
         12: data.Query(m(12), datetime.date(2020, 3, 1), 'assets', "SELECT account, sum(position) WHERE account ~ 'Assets'"),
-        13: data.Document(m(13), datetime.date(2021, 1, 1), 'Assets:Bank', '/tmp/c14-statement.pdf', frozenset(), frozenset()),
+        13: data.Document(m(13), datetime.date(2021, 1, 1), 'Assets:Bank', '/tmp/c14-statement.pdf', frozenset({'a-b'}), frozenset()),
         14: data.Custom(m(14), datetime.date(2021, 1, 1), 'budget', [_custom_value('monthly'), _custom_value(D('45.30'))]),
         15: data.Open(m(15), datetime.date(2020, 1, 1), 'Expenses:Food', None, None),
     }
@@ -402,12 +403,20 @@ def _custom_value(v):
     return VT(v, type(v))
 
 
+def own_set(e, field):
+    """the set of tags / links the directive CARRIES: [] when its type has no such field (or it is None), [[..]] otherwise.
+    Which rows of the entries table show it in the column of that name is for the specification to say (DirRow)"""
+    v = getattr(e, field, None) if field in getattr(e, '_fields', ()) else None
+    return [] if v is None else [sorted(v)]
+
+
 def abstract_dir(e):
-    """the attributes the filters look at, in the spec's vocabulary: [type, date, flag, payee, narration, accounts]"""
+    """the attributes the filters look at, in the spec's vocabulary: [type, date, flag, payee, narration, accounts,
+    tags, links]"""
     from beancount.core import data, getters
     txn = isinstance(e, data.Transaction)
     return [type(e).__name__.lower(), ymd(e.date), opt(e.flag) if txn else [], opt(e.payee) if txn else [],
-            opt(e.narration) if txn else [], sorted(getters.get_entry_accounts(e))]
+            opt(e.narration) if txn else [], sorted(getters.get_entry_accounts(e)), own_set(e, 'tags'), own_set(e, 'links')]
 
 
 def dnum(x):
@@ -555,7 +564,8 @@ def replay_print_cases(ctx, tables, cases, what):
     # the concrete catalog carries exactly the abstract attributes of the spec's pool
     for d in tables['dirpool']:
         a = abstract_dir(cat[d['id']])
-        want = [d['type'], d['date'], d['flag'], d['payee'], d['narration'], sorted(d['accounts'])]
+        want = [d['type'], d['date'], d['flag'], d['payee'], d['narration'], sorted(d['accounts']),
+                [sorted(x) for x in d['tags']], [sorted(x) for x in d['links']]]
         if a != want:
             raise MachineryError('directive catalog out of step with DirPoolAll: id %d %s vs %s' % (d['id'], a, want))
     psh = PrintShell()
@@ -612,6 +622,9 @@ PAYEES = [None, None, 'Kin Soy', 'Kin Soy', 'Goba Goba', 'BANK FEES', 'kin soy',
 NARRS = ['Eating out with Joe', 'Eating out alone', 'Payroll', '', 'Buying groceries', 'Buy shares of VBMPX', 'eating OUT',
          'A narration that goes on and on, well beyond the eighty characters that the journal register allows for it, and more',
          'Paying the rent']
+# tags and links: transactions have them -- and so do notes and documents
+TAGS = [frozenset(), frozenset(), frozenset(), frozenset({'trip'}), frozenset({'trip', 'food'}), frozenset({'food'})]
+LINKS = [frozenset(), frozenset(), frozenset({'inv-1'}), frozenset({'inv-1', 'inv-2'})]
 
 
 def random_ledger(rng, ntxn):
@@ -647,10 +660,15 @@ def random_ledger(rng, ntxn):
             pmeta_ = rng.choice([None, None, None, {'note': 'to be checked'}, {'flag': 'P', 'ref': 'a-17'}])
             posts.append(data.Posting(acc, units, cost, price, pflag, pmeta_))
         entries.append(data.Transaction({'filename': '<r>', 'lineno': n}, day, rng.choice(['*', '*', '*', '!']),
-                                        rng.choice(PAYEES), rng.choice(NARRS), frozenset(), frozenset(), posts))
+                                        rng.choice(PAYEES), rng.choice(NARRS), rng.choice(TAGS), rng.choice(LINKS), posts))
+        if rng.random() < 0.2:
+            n += 1
+            entries.append(data.Note({'filename': '<r>', 'lineno': n}, day, rng.choice(ACCOUNTS), 'a note',
+                                     rng.choice(TAGS), rng.choice(LINKS)))
         if rng.random() < 0.15:
             n += 1
-            entries.append(data.Note({'filename': '<r>', 'lineno': n}, day, rng.choice(ACCOUNTS), 'a note', frozenset(), frozenset()))
+            entries.append(data.Document({'filename': '<r>', 'lineno': n}, day, rng.choice(ACCOUNTS), '/tmp/c14-statement.pdf',
+                                         rng.choice(TAGS), rng.choice(LINKS)))
         if rng.random() < 0.1:
             n += 1
             entries.append(data.Price({'filename': '<r>', 'lineno': n}, day, 'VBMPX', amount.Amount(D('11.5'), 'USD')))
@@ -849,6 +867,8 @@ class Oracle:
                 for a in d[5]:
                     if not set(a) <= ALPHABET:
                         raise OutOfDomain('account alphabet')
+                if not all(plain_ascii(x) for o_ in d[6] + d[7] for x in o_):
+                    raise OutOfDomain('non-ASCII')
         except OutOfDomain:
             o['in_domain'] = False
         return o
@@ -1276,7 +1296,8 @@ def run(ctx):
         with cf.ThreadPoolExecutor(12) as pool:
             futs = [pool.submit(ctx.tlc, 'MC_Statements', 'MC_Statements_%s.cfg' % v, leg='MC-nonvacuity',
                                 expect_violation='DenoteIsMeaning', workers=2, jvm=JVM)
-                    for v in ('no_where', 'order_by_name', 'balance_raw', 'print_keeps_null', 'flag_of_posting')]
+                    for v in ('no_where', 'order_by_name', 'balance_raw', 'print_keeps_null', 'flag_of_posting',
+                              'attr_of_any_directive')]
             # sessions: results do not depend on what a connection (or another one) executed before; mechanisms that
             # keep state across statements on the table object / the registered object / the class are rejected, and so
             # is a shell that applies the default closing date of `.run` to a stored PRINT
